@@ -1,7 +1,7 @@
 (* C03 — Allocation obeys the register file: class, width, reserved, pinned registers. *)
 From Avo Require Import Base.Prelude.
 From stdpp Require Import gmap.
-From Avo Require Import Base.MaskSet Model.IR Model.RegFile Model.RegSpec Model.Liveness Model.Alloc Model.Cleanup Model.Pipeline Proofs.RegProofs Proofs.AllocProofs.
+From Avo Require Import Base.MaskSet Model.IR Model.RegFile Model.RegSpec Model.Liveness Model.Alloc Model.Cleanup Model.Pipeline Proofs.RegProofs Proofs.AllocProofs Proofs.AllocLoop Proofs.AllocCorrect.
 Open Scope N_scope.
 
 (* physical registers named by the author (and implicit operands) are left exactly as written *)
@@ -34,8 +34,16 @@ Theorem never_restricted : forall rf kind id, In id (colours rf kind) ->
 Proof. exact colours_spec. Qed.
 Print Assumptions never_restricted.
 
-(* when no valid assignment is found compilation reports an error: the model's compile returns a
-   result or an error, never a partially bound function *)
-Theorem failure_is_error : forall rf f, match compile rf f with OK c => True | Err _ => True | Panic _ => True end.
-Proof. intros rf f. destruct (compile rf f); exact I. Qed.
-Print Assumptions failure_is_error.
+(* THE ALLOCATOR, FOR EVERY PROGRAM: whenever the model of pass.AllocateRegisters returns an
+   allocation, every entry maps a virtual register to a physical register ID of the same kind that is
+   one of the colours of that kind — so never a restricted register (SP, K0; never_restricted) — and
+   every virtual register that occurs as an operand has an entry.  (When no valid assignment exists
+   the result is an error value: a_allocate returns Err EFailedAlloc / EImpossible, the res type has
+   no partially-bound outcome.)  Hypotheses discharged reflectively for the translated register file
+   on every run: Tab.regfile_ok_tab, Tab.regfile_kinds_ok_tab. *)
+Theorem allocation_obeys_register_file : forall rf is liveouts al,
+  regfile_ok rf = true -> regfile_kinds_ok rf = true -> allocate_registers rf is liveouts = OK al ->
+  (forall v c, al !! v = Some c -> virt v /\ phys c /\ id_kind c = id_kind v /\ In c (colours rf (id_kind v)))
+  /\ (forall i r, In i is -> In r (instr_registers i) -> virt (rid r) -> is_Some (al !! rid r)).
+Proof. exact allocation_obeys_register_file_lemma. Qed.
+Print Assumptions allocation_obeys_register_file.
